@@ -55,7 +55,7 @@ for pid in sorted(world):
         "engine": "E-world",
         "level_claimed": {"category": lvl, "text": text, "design_ref": "DESIGN.md " + ref},
         "level_note": note,
-        "technique": "deterministic simulation with fault injection: seeded multi-shard world simulation (real built-in functions on stub stores/transport), relational oracle + invariants, ddmin-minimised replay files" if pid != "C17" else "deterministic simulation with fault injection: dependency fault-point enumeration on snapshots of simulated histories",
+        "technique": "deterministic simulation with fault injection: seeded multi-shard world simulation (real built-in functions on stub stores/transport), relational oracle + invariants, ddmin-minimised replay files; a second stage re-runs a prefix of the seeds on a 32-bit (GOARCH=386) build of checker and library" if pid != "C17" else "deterministic simulation with fault injection: dependency fault-point enumeration on snapshots of simulated histories",
     })
 
 na = [{"property_id": "C20", "reason": "pure functions of their input (byte pairs, addresses, pairs of output accounts, two integers): no schedule, clock, fault, interleaving or history for a simulation to decide; per the brief answered not-applicable rather than dressed as simulation (MergeOutputAccounts is on no simulated path)"}]
@@ -87,11 +87,11 @@ manifest = {
     },
     "engines": [
         {"name": "E-world", "path": "/verif/sim", "serves_properties": sorted(world), "kind_free_text": "seeded deterministic multi-shard world simulation with fault injection (Go, module verifsim, replace => /repo): world/ (store, codec seam, nodes from the real factory, pipeline, transport, system-contract model, probes), spec/ (oracle: independent codec, per-function contracts, invariants), gen/ (seeded scheduler and generators), cmd/vcheck (batches in worker processes, ddmin, replay, evidence)"},
-        {"name": "E-conc", "path": "/verif/conc", "serves_properties": ["C19"], "kind_free_text": "deterministic concurrency scheduler over an AST-rewritten scratch copy of container/atomic/builtInFunctions; porcupine; race detector"},
+        {"name": "E-conc", "path": "/verif/conc", "serves_properties": ["C19"], "kind_free_text": "deterministic concurrency scheduler over an AST-rewritten scratch copy of container/atomic/builtInFunctions/parsers; porcupine; race detector; mode 'parse' (shared parser instances) is the last stage of the check of C10"},
     ],
     "checks": checks,
     "not_applicable": na,
-    "notes": "Checks rebuild from /repo's working tree on every invocation (go build with replace => /repo; C19 copies and rewrites the tree). Exit 0 held / 1 violation with VIOLATION line / 2 harness, build, watchdog or coverage-hole trouble. Genuine defects found by the checks on the pinned tree were repaired in 'fix:' commits and are listed as fixed in known_findings.json; their replay files are kept under /verif/findings.",
+    "notes": "Checks rebuild from /repo's working tree on every invocation (go build with replace => /repo; C19 copies and rewrites the tree). Every world check has two stages (amd64 build, then a fraction of the same seeds on a GOARCH=386 build; a replay file names its architecture and ./check <id> --replay picks the build); C10 has a third (shared parser instances under the concurrency engine). Exit 0 held / 1 violation with VIOLATION line / 2 harness, build, watchdog or coverage-hole trouble. Genuine defects found by the checks on the pinned tree were repaired in 'fix:' commits and are listed as fixed in known_findings.json; their replay files are kept under /verif/findings.",
 }
 json.dump(manifest, open("/verif/MANIFEST.json", "w"), indent=1)
 print("wrote MANIFEST.json with", len(checks), "checks")
